@@ -153,6 +153,8 @@ class Ctx:
                 return 'str'
             if v.startswith("'"):
                 return 'char'
+            if re.match(r'0[xX][0-9a-fA-F.]+[pP]', v):
+                return 'double'
             if not v.lower().startswith('0x') and re.search(r'[.eE]', v):
                 return 'float' if v.lower().endswith('f') else 'double'
             if v == 'NULL':
@@ -695,6 +697,9 @@ class Ctx:
             if m:
                 self.fire('numeric_limits')
                 return 'PGMV_LIMITS_%s_%s' % (self.cname_of_type(self.itype(m.group(1))), m.group(2))
+            if n.startswith('PGM_INDEX_VERIF_'):
+                self.fire('drop_verif_hook')
+                return '(void)0'
             if n == '__builtin_prefetch':
                 self.fire('drop_prefetch')
                 return '(void)0'
